@@ -3,7 +3,7 @@
    sumor -> OCaml types; fst/snd/andb/orb/negb inlined).  nat, positive, N, Z stay inductive. *)
 Require Extraction.
 Require Import ExtrOcamlBasic.
-From MD Require Import Bytes Generated DecodeDefs HeaderDefs MimeDefs NamesDefs IODefs.
+From MD Require Import Bytes Generated DecodeDefs HeaderDefs MimeDefs NamesDefs IODefs MainDefs.
 Extraction "mdmodel.ml" Bytes.cview DecodeDefs.base64_decode_raw DecodeDefs.base64_decode
   DecodeDefs.quoted_printable_decode DecodeDefs.rfc2047_decode
   HeaderDefs.parse_message HeaderDefs.get_header HeaderDefs.set_header HeaderDefs.message_write
@@ -11,4 +11,5 @@ Extraction "mdmodel.ml" Bytes.cview DecodeDefs.base64_decode_raw DecodeDefs.base
   MimeDefs.get_attachments MimeDefs.get_body MimeDefs.decode_body
   NamesDefs.flags_parse NamesDefs.flags_str NamesDefs.msgflags NamesDefs.flags_set_all NamesDefs.genname_loop
   NamesDefs.pathjoin NamesDefs.pathslice NamesDefs.slice_spec NamesDefs.dec
-  IODefs.replay_action IODefs.crash_violation IODefs.file_at IODefs.exactly_once.
+  IODefs.replay_action IODefs.crash_violation IODefs.file_at IODefs.exactly_once
+  MainDefs.main.
